@@ -39,6 +39,10 @@ CHECKS = {
                 text="The graph store is verified against a sequence-per-port view: sub-offset allocation, add_link (the link is appended exactly once to the sequences of both ports; BiMap inverse and contiguity invariants preserved; counts = max), add_order_link (idempotent; order ports are not counted), linked_ports / has_link / order-link listings / outgoing_links / incoming_links as functions of the view (one entry per port whatever the rest of the graph holds), lookup (KeyError exactly for non-live indices), iteration (live indices ascending), counts, children, add_node / add_const (new index was free, every other node keeps index and data), _update_port_count. delete_link, delete_node and insert_hugr are decided by a bounded model-based run of the real code against the sequential multigraph model of the statement (all queries compared after every operation) - not proved; hence category other. Three genuine defects were found and repaired.",
                 note=TRUST + "; BiMap through its C18 contracts; ghost cnt defined by an assumed instance; generator functions eager; _add_node verified in the thorough tier only.",
                 technique="contract-based deductive verification over a representation invariant + abstract view (z3, cross-checked) and a labelled bounded model-based stand-in for the deletion paths"),
+    "C05": dict(cat="other", design="5/C05",
+                text="One round-trip lemma per class of the data model (6 type parameters, 6 type arguments, all types incl. the sugar sums and extension types in opaque form, general-sum and extension values, all 21 serialized operation kinds incl. sugar tags, Custom and ExtOp): the real bodies of _to_serial and deserialize are executed symbolically back to back and the decoded object is shown to have the expected class and, attribute by attribute, the original's type parameters, deltas, names, tags, rows, signatures, type arguments and descriptions, with constituent positions related by the round-trip relation of their kind (modular structural induction). The wire (pydantic dump/validate), function values, foreign documents (null-offset order edges, metadata) and derived facts are checked on the real stack by the bounded enumeration -> category other. Seven codec defects found this way were repaired.",
+                note=TRUST + "; pydantic models as immutable records, dump/validate identity assumed; interface contracts name the serial forms of constituents.",
+                technique="contract-based deductive verification: code lemmas executing encode-then-decode symbolically per class (z3, cross-checked); bounded enumeration on the real pydantic stack for the wire and document level"),
 }
 
 NOT_APPLICABLE = {
